@@ -90,6 +90,14 @@ def check_set(b, cons, tmpdir, rnd, frs):
     from tdda.constraints import verify_df
     w = {'constraints': cons}
     b.case(('cons', json.dumps(cons, sort_keys=True, default=repr)))
+    given_md = None
+    if rnd.random() < 0.4:
+        # creation metadata as discovery writes it, zero counts and an empty user name included
+        given_md = {'local_time': '2026-01-02T03:04:05', 'creator': 'TDDA x', 'host': rnd.choice(['h', 'é']),
+                    'user': rnd.choice(['u', '']), 'dataset': 'd.csv', 'n_records': rnd.choice([0, 3]),
+                    'n_selected': rnd.choice([0, 2])}
+        cons = dict(cons, creation_metadata=given_md)
+        w = {'constraints': cons}
     dc = DatasetConstraints()
     with quiet():
         ok, _ = b.guarded('C09.load-dict.noraise', lambda: dc.initialize_from_dict(native_definite(cons)), w)
@@ -117,6 +125,12 @@ def check_set(b, cons, tmpdir, rnd, frs):
         return
     with quiet():
         ok, t2 = b.guarded('C09.to_json.noraise', lambda: dc2.to_json(), w)
+    if ok and given_md is not None:
+        md1 = json.loads(t1).get('creation_metadata')
+        md2 = dict(json.loads(t2).get('creation_metadata') or {})
+        md2.pop('tddafile', None)           # the path the set was loaded from is recorded on load
+        b.check('C09.round-trip-identical-text.metadata', md1 == given_md and md2 == given_md
+                and list(md1) == list(md2), w, 'given %r, written %r, after a file round trip %r' % (given_md, md1, md2))
     if ok:
         body = lambda t: json.dumps(json.loads(t).get('fields'), sort_keys=False)
         b.check('C09.round-trip-identical-text', t1 == t2 or body(t1) == body(t2) and
